@@ -43,6 +43,18 @@ pub uninterp spec fn radix_u8(t: Seq<char>, radix: int) -> Option<u8>;
 pub open spec fn has_prefix(t: Seq<char>, a: char, b: char) -> bool { t.len() >= 2 && t[0] == a && t[1] == b }
 pub open spec fn lit2(l: &str) -> (char, char) { (l@[0], l@[1]) }
 #[verifier::external_body] pub fn starts_with2(s: &Str, a: char, b: char) -> (r: bool) ensures r == has_prefix(chars(s), a, b) { unimplemented!() }
+#[verifier::external_body] pub fn starts_with3(s: &Str, a: char, b: char, c: char) -> (r: bool) ensures r == (has_prefix(chars(s), a, b) && chars(s).len() >= 3 && chars(s)[2] == c) { unimplemented!() }
+// a sign directly behind the prefix: `0x-5`, `0b+1` are no numerals (the digits of a prefixed numeral carry no sign of their own)
+pub open spec fn sign_behind_prefix(t: Seq<char>) -> bool { t.len() >= 3 && (t[2] == '+' || t[2] == '-') }
+// std: a digit of radix r is one of the first r of 0-9a-z: `x` is a digit only from radix 34 on, `b` only from radix 12 on, neither is a decimal digit
+pub broadcast axiom fn x_is_no_digit_i32(t: Seq<char>, radix: int) requires has_prefix(t, '0', 'x'), radix <= 33 ensures #[trigger] radix_i32(t, radix) is None;
+pub broadcast axiom fn x_is_no_digit_i128(t: Seq<char>, radix: int) requires has_prefix(t, '0', 'x'), radix <= 33 ensures #[trigger] radix_i128(t, radix) is None;
+pub broadcast axiom fn x_is_no_decimal_i32(t: Seq<char>) requires has_prefix(t, '0', 'x') ensures #[trigger] dec_i32(t) is None;
+pub broadcast axiom fn x_is_no_decimal_i128(t: Seq<char>) requires has_prefix(t, '0', 'x') ensures #[trigger] dec_i128(t) is None;
+pub broadcast axiom fn b_is_no_decimal_u8(t: Seq<char>) requires has_prefix(t, '0', 'b') ensures #[trigger] radix_u8(t, 10) is None;
+// std: an unsigned numeral is an optional `+` and digits -- a leading `-` is rejected
+pub broadcast axiom fn minus_is_no_u8(t: Seq<char>, radix: int) requires t.len() >= 1, t[0] == '-' ensures #[trigger] radix_u8(t, radix) is None;
+pub broadcast group digits { minus_is_no_u8, x_is_no_digit_i32, x_is_no_digit_i128, x_is_no_decimal_i32, x_is_no_decimal_i128, b_is_no_decimal_u8 }
 // `s.get(2..).unwrap_or_default()` behind a two-byte ASCII prefix: the rest of the text
 #[verifier::external_body] pub fn rest_after(s: &Str, n: usize) -> (r: &Str)
     ensures (n == 2 && (has_prefix(chars(s), '0', 'x') || has_prefix(chars(s), '0', 'b'))) ==> chars(r) == chars(s).skip(2) { unimplemented!() }   // two ASCII characters are two bytes
@@ -76,39 +88,45 @@ ARMS = {
  "StrParseInt": """requires recv(arguments@)
     ensures ({ let t = chars(&arguments@[0]->Str_0);
         // a decimal numeral, or -- as in source text -- `0x` and a hexadecimal one; never the decimal reading of the digits behind `0x`
-        let v = if has_prefix(t, '0', 'x') { radix_i32(t.skip(2), 16) } else { dec_i32(t) };
+        // (`0x-5` is no numeral: the digits behind the prefix carry no sign -- D87)
+        let v = if has_prefix(t, '0', 'x') { if sign_behind_prefix(t) { None } else { radix_i32(t.skip(2), 16) } } else { dec_i32(t) };
         (v is Some ==> is_present(r, Primitive::Int(v->Some_0))) && (v is None ==> is_nil(r)) })""",
  "StrParseBigint": """requires recv(arguments@)
     ensures ({ let t = chars(&arguments@[0]->Str_0);
-        let v = if has_prefix(t, '0', 'x') { radix_i128(t.skip(2), 16) } else { dec_i128(t) };
+        let v = if has_prefix(t, '0', 'x') { if sign_behind_prefix(t) { None } else { radix_i128(t.skip(2), 16) } } else { dec_i128(t) };
         (v is Some ==> is_present(r, Primitive::BigInt(v->Some_0))) && (v is None ==> is_nil(r)) })""",
  "StrParseBool": """requires recv(arguments@)
     ensures ({ let t = chars(&arguments@[0]->Str_0); (lit_bool(t) is Some ==> is_present(r, Primitive::Bool(lit_bool(t)->Some_0))) && (lit_bool(t) is None ==> is_nil(r)) })""",
  "StrParseFloat": """requires recv(arguments@)
     ensures ({ let t = chars(&arguments@[0]->Str_0); (dec_f64(t) is Some ==> is_present(r, Primitive::Float(dec_f64(t)->Some_0))) && (dec_f64(t) is None ==> is_nil(r)) })""",
  "StrParseIntRadix": """requires recv(arguments@), int_arg(arguments@, 1)
-    ensures ({ let t = without_prefix(chars(&arguments@[0]->Str_0), '0', 'x'); let radix = arguments@[1]->Int_0 as int;
+    ensures ({ let t0 = chars(&arguments@[0]->Str_0); let radix = arguments@[1]->Int_0 as int;
+        // `0x` is the prefix of a HEXADECIMAL numeral only (in radix 36 `0x1A` is a numeral of its own; in radix 2 it is none), and no sign follows it (D87)
+        let t = if radix == 16 && has_prefix(t0, '0', 'x') && !sign_behind_prefix(t0) { t0.skip(2) } else { t0 };
         // a radix no positional notation has (below 2, above 36) is outside the domain: a failure, never a panic
         &&& !(2 <= radix <= 36) ==> r is Err
         &&& (2 <= radix <= 36 && radix_i32(t, radix) is Some) ==> is_present(r, Primitive::Int(radix_i32(t, radix)->Some_0))
         &&& (2 <= radix <= 36 && radix_i32(t, radix) is None) ==> is_nil(r) })""",
  "StrParseBigintRadix": """requires recv(arguments@), int_arg(arguments@, 1)
-    ensures ({ let t = without_prefix(chars(&arguments@[0]->Str_0), '0', 'x'); let radix = arguments@[1]->Int_0 as int;
+    ensures ({ let t0 = chars(&arguments@[0]->Str_0); let radix = arguments@[1]->Int_0 as int;
+        let t = if radix == 16 && has_prefix(t0, '0', 'x') && !sign_behind_prefix(t0) { t0.skip(2) } else { t0 };
         &&& !(2 <= radix <= 36) ==> r is Err
         &&& (2 <= radix <= 36 && radix_i128(t, radix) is Some) ==> is_present(r, Primitive::BigInt(radix_i128(t, radix)->Some_0))
         &&& (2 <= radix <= 36 && radix_i128(t, radix) is None) ==> is_nil(r) })""",
  "StrParseByte": """requires recv(arguments@)
     ensures ({ let s = chars(&arguments@[0]->Str_0);
         // `0b` + binary digits, or a decimal numeral; exactly one prefix is part of the notation
-        let v = if has_prefix(s, '0', 'b') { radix_u8(s.skip(2), 2) } else { radix_u8(s, 10) };
+        let v = if has_prefix(s, '0', 'b') { if sign_behind_prefix(s) { None } else { radix_u8(s.skip(2), 2) } } else { radix_u8(s, 10) };
         (v is Some ==> is_present(r, Primitive::Byte(v->Some_0))) && (v is None ==> is_nil(r)) })""",
 }
 
 
 def sw2(b):
     lit = text(b["l"])
+    if lit.startswith('"') and lit.endswith('"') and len(lit) == 5 and "\\" not in lit:
+        return f"starts_with3 ( s , '{lit[1]}' , '{lit[2]}' , '{lit[3]}' )"
     if not (lit.startswith('"') and lit.endswith('"') and len(lit) == 4 and "\\" not in lit):
-        raise Undecided(f"starts_with({lit}): only a two-character literal prefix is modelled")
+        raise Undecided(f"starts_with({lit}): only a two- or three-character literal prefix is modelled")
     return f"starts_with2 ( s , '{lit[1]}' , '{lit[2]}' )"
 
 
@@ -148,6 +166,7 @@ def build(repo):
 pub fn arm_{name}(arguments: Vec<Primitive>) -> (r: Ret)
     {contract}
 {{
+    broadcast use digits;
 {render(b, 1)}
 }}
 """)
